@@ -397,6 +397,18 @@ def check_classifier(case):
     back = np.asarray(m.transformer_.get_fct_inv().transform(None, inner_codes)[1])
     require(back.shape == pred.shape and bool(np.all(back == pred)), "predict:not-inverse-of-inner-predict",
             "predict gives %r, the inner classifier's predictions mapped back give %r" % (pred.tolist()[:8], back.tolist()[:8]), facts)
+    if not isinstance(tr, str):
+        # the transformer INSTANCE given to this model is given to a second one trained on the labels in reverse order of appearance
+        # (one transformer object re-used in a loop): the first model keeps its own mapping
+        try:
+            m_other = _tp.TransformedTargetClassifier2(classifier=clone(learner), transformer=tr)
+            m_other.fit(X[::-1], y[::-1])
+        except Exception:  # noqa: BLE001
+            pass
+        pred_again = np.asarray(m.predict(Q))
+        require(pred_again.shape == pred.shape and bool(np.all(pred_again == pred)) and list(np.asarray(m.classes_).tolist()) == classes,
+                "predict:moved-by-another-model-on-the-same-transformer-instance",
+                "after a second model was trained with the same transformer object, predict gives %r instead of %r" % (pred_again.tolist()[:8], pred.tolist()[:8]), facts)
     P = np.asarray(m.predict_proba(Q), dtype=np.float64)
     PP = np.asarray(plain.predict_proba(Q), dtype=np.float64)
     pl_classes = list(plain.classes_.tolist())
